@@ -20,9 +20,14 @@ package limiters
 
 import (
 	"context"
+	"errors"
 	"sync"
 	"time"
 )
+
+// ErrBucketSetFull is returned by TakeContext when the BucketSet already holds
+// MaxBuckets buckets and none of them can be dropped.
+var ErrBucketSetFull = errors.New("limiters: too many buckets in use")
 
 // BucketSet combines a group of Ls into a single key-indexed structure.
 // Basically, each unique key gets its own counter. The main use case for
@@ -51,10 +56,15 @@ type BucketSet struct {
 	MaxBuckets int
 
 	mLck sync.Mutex
-	m    map[string]*struct {
-		r       L
-		lastUse time.Time
-	}
+	m    map[string]*bucket
+}
+
+type bucket struct {
+	r       L
+	lastUse time.Time
+	// Amount of Take calls that are pending or were not followed by Release
+	// yet. Buckets with users != 0 are never dropped.
+	users int
 }
 
 func NewBucketSet(new_ func() L, reapInterval time.Duration, maxBuckets int) *BucketSet {
@@ -62,10 +72,7 @@ func NewBucketSet(new_ func() L, reapInterval time.Duration, maxBuckets int) *Bu
 		New:          new_,
 		ReapInterval: reapInterval,
 		MaxBuckets:   maxBuckets,
-		m: map[string]*struct {
-			r       L
-			lastUse time.Time
-		}{},
+		m:            map[string]*bucket{},
 	}
 }
 
@@ -78,7 +85,9 @@ func (r *BucketSet) Close() {
 	}
 }
 
-func (r *BucketSet) take(key string) L {
+// take returns the bucket for the key with its users counter incremented or
+// nil if the set is full.
+func (r *BucketSet) take(key string) *bucket {
 	r.mLck.Lock()
 	defer r.mLck.Unlock()
 
@@ -86,12 +95,7 @@ func (r *BucketSet) take(key string) L {
 		now := time.Now()
 		// Attempt to get rid of stale buckets.
 		for k, v := range r.m {
-			if v.lastUse.Sub(now) > r.ReapInterval {
-				// Drop the bucket, if there happen to be any waiting Take for it.
-				// It will return 'false', but this is fine for us since this
-				// whole 'reaping' process will run only when we are under a
-				// high load and dropping random requests in this case is a
-				// more or less reasonable thing to do.
+			if v.users == 0 && now.Sub(v.lastUse) > r.ReapInterval {
 				v.r.Close()
 				delete(r.m, k)
 			}
@@ -103,20 +107,22 @@ func (r *BucketSet) take(key string) L {
 		}
 	}
 
-	bucket, ok := r.m[key]
+	b, ok := r.m[key]
 	if !ok {
-		r.m[key] = &struct {
-			r       L
-			lastUse time.Time
-		}{
-			r:       r.New(),
-			lastUse: time.Now(),
-		}
-		bucket = r.m[key]
+		b = &bucket{r: r.New()}
+		r.m[key] = b
 	}
-	r.m[key].lastUse = time.Now()
+	b.lastUse = time.Now()
+	b.users++
 
-	return bucket.r
+	return b
+}
+
+// untake reverts the users counter increment done by take.
+func (r *BucketSet) untake(b *bucket) {
+	r.mLck.Lock()
+	defer r.mLck.Unlock()
+	b.users--
 }
 
 func (r *BucketSet) Take(key string) bool {
@@ -124,8 +130,15 @@ func (r *BucketSet) Take(key string) bool {
 		return true
 	}
 
-	bucket := r.take(key)
-	return bucket.Take()
+	b := r.take(key)
+	if b == nil {
+		return false
+	}
+	if !b.r.Take() {
+		r.untake(b)
+		return false
+	}
+	return true
 }
 
 func (r *BucketSet) Release(key string) {
@@ -136,11 +149,12 @@ func (r *BucketSet) Release(key string) {
 	r.mLck.Lock()
 	defer r.mLck.Unlock()
 
-	bucket, ok := r.m[key]
+	b, ok := r.m[key]
 	if !ok {
 		return
 	}
-	bucket.r.Release()
+	b.users--
+	b.r.Release()
 }
 
 func (r *BucketSet) TakeContext(ctx context.Context, key string) error {
@@ -148,6 +162,13 @@ func (r *BucketSet) TakeContext(ctx context.Context, key string) error {
 		return nil
 	}
 
-	bucket := r.take(key)
-	return bucket.TakeContext(ctx)
+	b := r.take(key)
+	if b == nil {
+		return ErrBucketSetFull
+	}
+	if err := b.r.TakeContext(ctx); err != nil {
+		r.untake(b)
+		return err
+	}
+	return nil
 }
